@@ -483,6 +483,8 @@ def emit() -> str:
     ncfg = next(n for n in node.body if isinstance(n, ast.ClassDef) and n.name == "ConfigSchema")
     n_idiom = countdown_idiom(find_method(node, "apply_timestep"), "node_scan_countdown")
     n_load = load_expr(find_method(node, "scan"), "node_scan_countdown")
+    r_idiom = countdown_idiom(find_method(node, "apply_timestep"), "red_scan_countdown")
+    r_load = load_expr(find_method(node, "reveal_to_red"), "red_scan_countdown")
 
     def pairs(xs):
         return llist([f"({lstr(a)}, {b})" for a, b in xs])
@@ -532,6 +534,10 @@ def nodeScanDurationDefault : Int := {int_default(ncfg, "node_scan_duration")}
 def nodeScanCountdownDefault : Int := {int_default(node, "node_scan_countdown")}
 def nodeScanIdiom : String × String × String := {triple(n_idiom)}
 def nodeScanLoad : String × String := {pair(n_load)}
+/-- the reveal-to-red scan of the node (same block of `apply_timestep`, same duration) -/
+def redScanCountdownDefault : Int := {int_default(node, "red_scan_countdown")}
+def redScanIdiom : String × String × String := {triple(r_idiom)}
+def redScanLoad : String × String := {pair(r_load)}
 /-- blocks of `Node.apply_timestep` under `operating_state == ON`, in order -/
 def nodeTickOrder : List String := {llist([lstr(x) for x in node_tick_order()])}
 /-- every `apply_timestep` override under simulator/system and whether it reaches super() -/
